@@ -27,7 +27,21 @@ print("RESULT", json.dumps({"failures": [f.sig() for f in out.failures], "discar
 ''' % ROOT
 
 
-def run(tree, witness):
+def run_check_replay(tree, prop, witness):
+    env = dict(os.environ, PYTHONPATH=os.path.join(tree, "src"), PDT_REPO=tree, PYTHONHASHSEED="0")
+    r = subprocess.run(["/venv/bin/python", os.path.join(ROOT, "run_check.py"), prop, "--replay", witness],
+                       capture_output=True, text=True, env=env)
+    if r.returncode == 1:
+        return {"failures": [l for l in r.stdout.splitlines() if l.startswith("FAILURE")][:3] or ["exit 1"]}
+    if r.returncode == 0:
+        return {"failures": [], "discard": None}
+    return {"harness": (r.stderr or r.stdout)[-300:]}
+
+
+def run(tree, witness, prop=None):
+    wcase = json.load(open(witness)).get("case", {})
+    if "steps" not in wcase or wcase.get("validate") == "check":
+        return run_check_replay(tree, prop, witness)
     env = dict(os.environ, PYTHONPATH=os.path.join(tree, "src"), PDT_REPO=tree, PYTHONHASHSEED="0")
     r = subprocess.run(["/venv/bin/python", "-c", CHILD, witness], capture_output=True, text=True, env=env)
     for line in r.stdout.splitlines():
@@ -48,10 +62,10 @@ def main():
         subprocess.run(["git", "-C", "/repo", "worktree", "add", "--detach", "-f", wt, kf["commit"] + "^"],
                        capture_output=True, text=True)
         try:
-            before = run(wt, w)
+            before = run(wt, w, kf["property"])
         finally:
             subprocess.run(["git", "-C", "/repo", "worktree", "remove", "--force", wt], capture_output=True)
-        after = run("/repo", w)
+        after = run("/repo", w, kf["property"])
         good = bool(before.get("failures")) and after.get("failures") == [] and not after.get("discard") and "harness" not in after
         ok &= good
         print(("OK  " if good else "BAD "), kf["id"], kf["commit"], "| before:", before.get("failures") or before, "| after:", after)
